@@ -56,7 +56,7 @@ class ResolveArguments(Target):
     inline_class = {'this': (G, 'ComponentSpecification')}
     trusted = ["DataReference.resolve returns the reference's own value (a path, or the file contents for :output)",
                "rules of the structured-string domain incl. the REPLACE rule"]
-    assumptions = ["two declared references; values are non-empty strings over [A-Za-z0-9_] (no ':' so a value never looks like a "
+    assumptions = ["two declared references, the first mentioned once, twice, or in both spellings; values are non-empty strings over [A-Za-z0-9_] (no ':' so a value never looks like a "
                    "reference); component names over [A-Za-z0-9_#-] not starting with a digit"]
     carve_outs = {
         # the witness classes of the recorded findings, no wider: (a) one name PROPERLY ends with the other, (b) both
@@ -79,7 +79,7 @@ class ResolveArguments(Target):
 
         def spell(p, s, m, absolute):
             return S(('stage' if absolute else None), (num(c, s) if absolute else None), ('.' if absolute else None), p, ':', m)
-        use1 = c.one_of('mention1', ['absolute', 'relative', 'both'])
+        use1 = c.one_of('mention1', ['absolute', 'relative', 'both', 'relative-twice', 'absolute-twice'])
         use2 = c.one_of('mention2', ['absolute', 'relative'])
         order = c.one_of('declaration_order', ['12', '21'])
 
@@ -88,8 +88,9 @@ class ResolveArguments(Target):
                        stringRepresentation=spell(p, s, m, True), resolve=Extern('DataReference.resolve', lambda c, g, v=v: v),
                        Output='output', LoopOutput='loopoutput')
         r1, r2 = mk(p1, s1, m1, v1, '1'), mk(p2, s2, m2, v2, '2')
-        tok1 = [spell(p1, s1, m1, True)] if use1 == 'absolute' else [spell(p1, s1, m1, False)] if use1 == 'relative' else \
-            [spell(p1, s1, m1, True), spell(p1, s1, m1, False)]
+        tok1 = {'absolute': [spell(p1, s1, m1, True)], 'relative': [spell(p1, s1, m1, False)],
+                'both': [spell(p1, s1, m1, True), spell(p1, s1, m1, False)],
+                'relative-twice': [spell(p1, s1, m1, False)] * 2, 'absolute-twice': [spell(p1, s1, m1, True)] * 2}[use1]
         tok2 = spell(p2, s2, m2, use2 == 'absolute')
         pieces = ['run -i '] + [x for t in tok1 for x in (t, ' ')] + ['--other=', tok2, ' plain text']
         args = S(*pieces)
@@ -101,7 +102,7 @@ class ResolveArguments(Target):
         unused = []
         return State(kwargs={'self': this, 'unresolved': None, 'unused': unused, 'ignoreErrors': False}, this=this,
                      want=want, unused=unused, both_spellings=(use1 == 'both'), r1=r1, r2=r2,
-                     relative_mention=(use1 in ('relative', 'both') or use2 == 'relative'))
+                     relative_mention=(use1 in ('relative', 'both', 'relative-twice') or use2 == 'relative'))
 
     def ensures(self, c, st, out):
         if out.kind == 'raise':
@@ -124,5 +125,46 @@ class ResolveArguments(Target):
         return [] if sv == nv else ["arguments: symbolic %r vs native %r" % (sv, nv)]
 
 
-TARGETS = [ResolveArguments()]
+class ResolveArgumentsUnresolved(ResolveArguments):
+    """a reference that cannot be resolved while errors are ignored (validation of a package before it ran): the
+    contents of a missing :output are the empty string, a missing path is left as written -- never the text 'None'"""
+    name = 'ComponentSpecification.resolveArguments[unresolved]'
+    carve_outs = {}
+    assumptions = ["one declared reference whose resolution fails; ignoreErrors=True"]
+
+    def setup(self, c):
+        import experiment.model.errors as errors
+        name = lambda tag, sample: c.atom(tag, sample, excludes=NAME_EXCL, distinct_from=['stage', ''],
+                                           not_stage_prefixed=True, first_not_digit=True)
+        p1 = name('p1', 'alpha')
+        s1 = c.int('stage1')
+        c.require(compare('>=', s1, 0))
+        m1 = c.one_of('method1', ['ref', 'output'])
+        absolute = c.one_of('mention1', ['absolute', 'relative']) == 'absolute'
+
+        def spell(p, s, m, ab):
+            return S(('stage' if ab else None), (num(c, s) if ab else None), ('.' if ab else None), p, ':', m)
+
+        def resolve(c, g):
+            c.raise_(errors.InternalInconsistencyError, 'cannot resolve yet')
+        r1 = Obj('ref1', method=m1, absoluteReference=spell(p1, s1, m1, True), relativeReference=spell(p1, s1, m1, False),
+                 stringRepresentation=spell(p1, s1, m1, True), resolve=Extern('DataReference.resolve', resolve),
+                 Output='output', LoopOutput='loopoutput')
+        tok = spell(p1, s1, m1, absolute)
+        args = S('run -i ', tok, ' plain text')
+        want = S('run -i ', ' plain text') if m1 == 'output' else args
+        this = Obj('spec', dataReferences=[r1], commandDetails={'arguments': args}, workflowAttributes={'isRepeat': False},
+                   workflowGraphRef=Extern('workflowGraphRef', lambda c: 'graph'),
+                   identification=Obj('cid', identifier='stage0.me', stageIndex=0))
+        unused = []
+        return State(kwargs={'self': this, 'unresolved': None, 'unused': unused, 'ignoreErrors': True}, this=this,
+                     want=want, unused=unused, both_spellings=False, r1=r1, r2=r1, relative_mention=not absolute)
+
+    def ensures(self, c, st, out):
+        if out.kind == 'raise':
+            return [('no-exception', False)]
+        return [('an-unresolved-reference-never-becomes-the-text-None', bool(same(st.env['arguments'], st.want, c)))]
+
+
+TARGETS = [ResolveArguments(), ResolveArgumentsUnresolved()]
 LEMMAS = []
